@@ -65,6 +65,12 @@ type orcSame struct {
 }
 
 func orcObjSameContent(pre *orcSnap, i int, post *orcSnap, j int, drop ...[]string) string {
+	la, _ := orcScalar(pre.Objs[i].Attrs, "label")
+	lb, _ := orcScalar(post.Objs[j].Attrs, "label")
+	if strings.EqualFold(la, pre.Objs[i].IDVal) && strings.EqualFold(lb, post.Objs[j].IDVal) && strings.EqualFold(la, lb) {
+		// default labels follow the spelling of the ID (first reference wins)
+		drop = append(drop, []string{"label"})
+	}
 	a := orcJSONWithout(pre.Objs[i].Attrs, drop...) + "|near=" + pre.Objs[i].NearRaw + fmt.Sprintf("|class=%v|sql=%v", pre.Objs[i].Class, pre.Objs[i].SQL)
 	b := orcJSONWithout(post.Objs[j].Attrs, drop...) + "|near=" + post.Objs[j].NearRaw + fmt.Sprintf("|class=%v|sql=%v", post.Objs[j].Class, post.Objs[j].SQL)
 	if a != b {
